@@ -120,6 +120,17 @@ theorem nl_execStart (t : St) (a hh : Nat) (h : NoLost t) : NoLost (execStart t 
     have := h j this
     split <;> simp [this]
 
+theorem nl_pexecStart (t : St) (a : Nat) (hs : List Nat) (h : NoLost t) : NoLost (pexecStart t a hs).1 := by
+  unfold pexecStart
+  simp only []
+  apply nl_setActor
+  intro j hj
+  by_cases hjk : j = t.nActs
+  · subst hjk
+    simp [upd] at hj
+  · have : (t.acts j).action = some .failed := by simpa [upd, hjk] using hj
+    exact h j this
+
 theorem nl_sleepStart (t : St) (a : Nat) (h : NoLost t) : NoLost (sleepStart t a).1 := by
   unfold sleepStart
   simp only []
@@ -213,6 +224,11 @@ theorem nl_step (s : St) (e : Ev) (h : NoLost s) : NoLost (step s e) := by
       simp only []
       split
       · exact nl_execStart s a hh h
+      · exact h
+    | pexecStart a hs =>
+      simp only []
+      split
+      · exact nl_pexecStart s a hs h
       · exact h
     | sleep a =>
       simp only []
